@@ -24,7 +24,7 @@ def run_system(decl, sc, x0, u, p, intg):
     ocp.method(MultipleShooting(N=1, M=sc['M'], intg=intg))
     F = quiet(ocp.discrete_system)
     pv = [fv(p)] if decl['params'] else []
-    r = F(x0=x0, u=[u], T=fv(sc['T']), t0=fv(sc['t0']), p=ca.vertcat(*pv), z0=ca.DM(0, 1))
+    r = F(x0=x0, u=[u], T=fv(sc['T']), t0=fv(sc['t0']), p=ca.vertcat(*pv), z0=ca.DM.zeros(len(decl['algs']), 1))
     return np.array(r['xf']).reshape(-1), np.array(r['qf']).reshape(-1), b
 
 
@@ -61,7 +61,8 @@ def replay(rec):
     x0 = [fv(v) for v in rec['x0']]; u = fv(rec['u'])
     res = []
     try:
-        for intg, key in (('rk', 'rk'), ('expl_euler', 'euler')):
+        dae = bool(decl['algs'])
+        for intg, key in ((('rk', 'rk'), ('expl_euler', 'euler')) if not dae else ()):
             xf, qf, b = run_system(decl, sc, x0, u, rec['p'], intg)
             pred = rec[key]
             ok = all(isbad(p) or close(float(a), p) for a, p in zip(xf, pred['xf'])) and (len(qf) == 0 or all(isbad(p) or close(float(a), p) for a, p in zip(qf, pred['qf'])))
@@ -73,7 +74,7 @@ def replay(rec):
                 err = max(abs(float(a) - fv(e)) for a, e in zip(xf, rec['exact']['xf']))
                 res.append(('C03.info:err:%s:M%d' % (intg, sc['M']), 'ok', '%g' % err))
         # CasADi integrators: within a loose tolerance of the exact flow (O(1) defects are in scope)
-        for intg in ('cvodes', 'collocation'):
+        for intg in (('cvodes', 'collocation') if not dae else ('idas', 'collocation')):
             # casadi's fixed-step collocation is a discretisation itself: only judged on the finer subdivisions
             if intg == 'collocation' and sc['M'] < 4: continue
             try:
@@ -81,7 +82,10 @@ def replay(rec):
                 # quadratures are not error-controlled by CVODES' defaults: 1e-3 for them, 1e-4 for the states
                 ok = all(rel_close(float(a), fv(e), 1e-4) for a, e in zip(xf, rec['exact']['xf']))
                 # CVODES does not error-control quadratures by default (quad_err_con=False): qf is only required to be in the right ballpark
-                ok = ok and all(rel_close(float(a), fv(e), 1e-3 if intg == 'collocation' else 5e-2) for a, e in zip(qf, rec['exact']['qf']))
+                # ... and IDAS' quadratures of an integrand that mentions z are off by O(0.1) with CasADi's defaults (reproduced with a bare
+                # casadi.integrator; exact only with quad_err_con): the library cannot be blamed, only the state is judged there
+                if intg != 'idas':
+                    ok = ok and all(rel_close(float(a), fv(e), 1e-3 if intg == 'collocation' else 5e-2) for a, e in zip(qf, rec['exact']['qf']))
                 res.append(('C03.b:casadi:' + intg, 'ok' if ok else 'mismatch', 'xf=%s qf=%s exact xf=%s qf=%s' % (xf, qf, [fv(e) for e in rec['exact']['xf']], [fv(e) for e in rec['exact']['qf']])))
             except Exception as e:
                 msg = (str(e).splitlines() or [''])[-1][:160]
@@ -105,6 +109,7 @@ def replay(rec):
                 err = max(abs(a - fv(e)) for a, e in zip(xf, rec['exact']['xf']))
                 res.append(('C03.info:err:dc-%s2:M%d' % (scheme, sc['M']), 'ok', '%g' % err))
         # sys_simulator describes the same flow
+        if dae: return {'results': res, 'error': None}
         b = quiet(build, decl, 'ipopt', False)
         sim = quiet(b.ocp.sys_simulator, 'rk', {"number_of_finite_elements": 40})
         pv = [fv(rec['p'])] if decl['params'] else []
